@@ -603,7 +603,26 @@ type C10XCase struct {
 	Convs  []int `json:"convs"`
 }
 
-var exTypes = []reflect.Type{
+// Two DISTINCT types that print the same ("props.twinID"): function-local type
+// declarations with the same name.
+func twinTypeA() (reflect.Type, interface{}) {
+	type twinID int
+	return reflect.TypeOf(twinID(0)), twinID(11)
+}
+
+func twinTypeB() (reflect.Type, interface{}) {
+	type twinID int
+	return reflect.TypeOf(twinID(0)), twinID(22)
+}
+
+var exTypes = func() []reflect.Type {
+	ts := exTypesBase
+	a, _ := twinTypeA()
+	b, _ := twinTypeB()
+	return append(append([]reflect.Type(nil), ts...), a, b)
+}()
+
+var exTypesBase = []reflect.Type{
 	reflect.TypeOf([]int(nil)), reflect.TypeOf(exInts(nil)), reflect.TypeOf(map[string]int(nil)), reflect.TypeOf(exMap(nil)),
 	reflect.TypeOf((func() int)(nil)), reflect.TypeOf(exFn(nil)), reflect.TypeOf(""), reflect.TypeOf(exStr("")),
 	reflect.TypeOf((*error)(nil)).Elem(), reflect.TypeOf((*MyErr)(nil)), reflect.TypeOf(exMarker{}), reflect.TypeOf(&exMarker{}),
@@ -614,6 +633,7 @@ func exValues() []interface{} {
 	return []interface{}{
 		[]int{1, 2}, exInts{3}, map[string]int{"a": 1}, exMap{"b": 2}, func() int { return 7 }, exFn(func() int { return 8 }),
 		"str", exStr("xs"), error(&MyErr{N: 5}), &MyErr{N: 6}, exMarker{A: 1, B: "b"}, &exMarker{A: 2}, 42, 3.5,
+		func() interface{} { _, v := twinTypeA(); return v }(), func() interface{} { _, v := twinTypeB(); return v }(),
 	}
 }
 
@@ -716,11 +736,14 @@ func genC10X(g engine.G) *engine.Case {
 	var x C10XCase
 	x.Target = g.Int(0, len(exTypes)-1)
 	for i, n := 0, g.Int(0, 3); i < n; i++ {
-		x.Inputs = append(x.Inputs, g.Int(0, 13))
+		x.Inputs = append(x.Inputs, g.Int(0, 15))
 	}
 	if g.Pct(60) && len(x.Inputs) > 0 {
 		// bias: an input "near" the target type (same index or its neighbour)
 		x.Inputs[0] = x.Target/2*2 + g.Int(0, 1)
+		if x.Target >= 15 { // the twin types: values 14, 15
+			x.Inputs[0] = 14 + g.Int(0, 1)
+		}
 	}
 	for i, n := 0, g.Int(0, 2); i < n; i++ {
 		x.Convs = append(x.Convs, g.Int(0, len(exConvs)-1))
